@@ -1078,6 +1078,10 @@ package dbft
 //@   assume @A7 msg.ValidatorIndex() != self.MyIndex || self.PreCommitPayloads[self.MyIndex] != nil
 //@   requires [C07] @enabled amev()
 // a pre-commit that arrives when the pre-block can be built is counted only after its data verified against that pre-block
+// ... and one whose data did NOT verify on arrival does not stay in the table (it would be counted later): if the call ends without
+// having gone on to checkPreCommit, with the pre-block at hand and the arriving payload stored for the current view, its data verified
+//@   ensures [C02,C07] @rejectedOnArrivalDropped implies(!called(checkPreCommit) && self.preBlock != nil && hasAllTx() && msg.ViewNumber() == self.ViewNumber
+//@        && old(self.PreCommitPayloads[msg.ValidatorIndex()]) == nil && self.PreCommitPayloads[msg.ValidatorIndex()] == msg, verP(msg.ValidatorIndex()))
 //@   at call *.checkPreCommit: assert [C02] @arrivalVerified self.preBlock != nil && curP(msg.ValidatorIndex()) && verP(msg.ValidatorIndex())
 //@ func (*DBFT).onCommit
 //@   recvname d
